@@ -31,6 +31,7 @@ pub enum Ty {
     Tuple(Vec<Ty>),
     Iter(Box<Ty>),
     Never,
+    Fn(Vec<Ty>, Box<Ty>),
     Unknown(String),
 }
 
@@ -207,11 +208,30 @@ pub fn conv_type(t: &Type, bind: &HashMap<String, Ty>) -> Ty {
                 "Option" if args.len() == 1 => Ty::Opt(Box::new(args[0].clone())),
                 "Result" if args.len() == 2 => Ty::Res(Box::new(args[0].clone()), Box::new(args[1].clone())),
                 "Vec" if args.len() == 1 => Ty::List(Box::new(args[0].clone())),
+                "Iter" if args.len() == 1 && segs.iter().any(|s| s == "slice") => Ty::Iter(Box::new(args[0].clone())),
                 "Self" => bind.get("Self").cloned().unwrap_or(Ty::Unknown("Self".into())),
                 _ => Ty::Unknown(quote::ToTokens::to_token_stream(t).to_string()),
             }
         }
         Type::Reference(r) => conv_type(&r.elem, bind),
+        Type::ImplTrait(it) => {
+            for b in &it.bounds {
+                if let TypeParamBound::Trait(tb) = b {
+                    let last = tb.path.segments.last().unwrap();
+                    if last.ident == "Fn" || last.ident == "FnMut" {
+                        if let PathArguments::Parenthesized(pa) = &last.arguments {
+                            let ins: Vec<Ty> = pa.inputs.iter().map(|t| conv_type(t, bind)).collect();
+                            let out = match &pa.output {
+                                ReturnType::Type(_, t) => conv_type(t, bind),
+                                ReturnType::Default => Ty::Unit,
+                            };
+                            return Ty::Fn(ins, Box::new(out));
+                        }
+                    }
+                }
+            }
+            Ty::Unknown(quote::ToTokens::to_token_stream(t).to_string())
+        }
         Type::Slice(s) => Ty::List(Box::new(conv_type(&s.elem, bind))),
         Type::Array(a) => Ty::List(Box::new(conv_type(&a.elem, bind))),
         Type::Tuple(t) => {
@@ -479,7 +499,12 @@ fn index_items(idx: &mut Index, module: &[String], file: &str, items: &[Item], t
                     }
                     Fields::Unit => {}
                 }
-                let generic = !s.generics.params.is_empty();
+                let mut generic = !s.generics.params.is_empty();
+                if s.ident == "Data" && generic {
+                    // `Data<D: AsRef<[f64]> + AsMut<[f64]>>(D)` is modelled as a wrapper around a list of f64
+                    generic = false;
+                    fields = vec![("0".to_string(), Ty::List(Box::new(Ty::F64)))];
+                }
                 idx.structs.insert(
                     s.ident.to_string(),
                     StructInfo {
@@ -586,10 +611,23 @@ fn index_items(idx: &mut Index, module: &[String], file: &str, items: &[Item], t
                     self_conv = Ty::List(Box::new(Ty::F64));
                     sty = "IterStatistics".to_string();
                 }
+                if sty == "Data" && impl_generic {
+                    impl_generic = false;
+                    self_conv = Ty::Struct("Data".into());
+                }
                 let self_ty_resolved = match &self_conv {
-                    Ty::Unknown(_) => Ty::Struct(sty.clone()),
+                    Ty::Unknown(_) => {
+                        if idx.enums.contains_key(&sty) {
+                            Ty::Enum(sty.clone())
+                        } else {
+                            Ty::Struct(sty.clone())
+                        }
+                    }
                     t => t.clone(),
                 };
+                if sty == "Data" {
+                    bind.insert("D".into(), Ty::List(Box::new(Ty::F64)));
+                }
                 bind.insert("Self".into(), self_ty_resolved);
                 let (trait_name, trait_args): (Option<String>, Vec<Ty>) = match &im.trait_ {
                     Some((_, p, _)) => {
@@ -721,6 +759,7 @@ fn mk_fn(
                 params.push(((*pt.pat).clone(), conv_type(&pt.ty, bind)));
                 param_ref.push(match &*pt.ty {
                     Type::Reference(r) if r.mutability.is_some() => 2,
+                    Type::Reference(r) if matches!(&*r.elem, Type::Array(_)) => 3,
                     Type::Reference(_) => 1,
                     _ => 0,
                 });
@@ -731,8 +770,28 @@ fn mk_fn(
         ReturnType::Default => Ty::Unit,
         ReturnType::Type(_, t) => conv_type(t, bind),
     };
-    let generic = sig.generics.params.iter().any(|g| matches!(g, GenericParam::Type(_)));
+    let mut generic = sig.generics.params.iter().any(|g| matches!(g, GenericParam::Type(_)));
     let mkey = join(module);
+    let mut bind2 = bind.clone();
+    let mut params = params;
+    let mut ret = ret;
+    if name == "integral_bisection_search" && self_ty.is_none() {
+        // generic over the lattice type K (u64/i64 → Int) and the value type T (f64)
+        generic = false;
+        bind2.insert("K".into(), Ty::Int(IntK::I64));
+        bind2.insert("T".into(), Ty::F64);
+        params.clear();
+        for a in &sig.inputs {
+            if let FnArg::Typed(pt) = a {
+                params.push(((*pt.pat).clone(), conv_type(&pt.ty, &bind2)));
+            }
+        }
+        ret = match &sig.output {
+            ReturnType::Default => Ty::Unit,
+            ReturnType::Type(_, t) => conv_type(t, &bind2),
+        };
+    }
+    let bind = &bind2;
     let (key, lean_name) = match &self_ty {
         Some(s) => (format!("{}::{}", s, name), format!("{}.{}", s, name)),
         None => (format!("{}::{}", mkey, name), format!("{}.{}", layer_prefix(module), name)),
